@@ -53,7 +53,6 @@ DIMS = collections.OrderedDict([
     ("bx", [False, True]),
     ("csize", [False, True]),
     ("nocrc", [False, True]),
-    ("legacy", [False, False, True]),
     ("dict", [None, None, 1000, 65536, 100000]),
     ("io", ["file", "file", "pipe", "redir", "cfile"]),
     ("sparse", ["default", "sparse", "nosparse"]),
@@ -95,7 +94,15 @@ def pairwise_rows(rng, dims, extra=0):
 def gen_cases(tier, seed):
     rng = random.Random(seed)
     cases = []
-    rows = pairwise_rows(rng, DIMS, extra={"quick": 0, "search": 40, "thorough": 150}[tier])
+    rows = pairwise_rows(rng, DIMS, extra={"quick": 0, "search": 40, "thorough": 500}[tier])
+    for r in rows:
+        r["legacy"] = False
+    # -l : most frame options are ignored; vary level (fast / HC threshold at 3), I/O mode, build
+    for i in range({"quick": 10, "search": 16, "thorough": 40}[tier]):
+        r = {k: rng.choice(v) for k, v in DIMS.items()}
+        r["legacy"] = True
+        r["level"] = LEVELS[i % len(LEVELS)] if i % 3 else rng.choice(["-2", "-3", "-0"])
+        rows.append(r)
     # every small size and every content kind appears; sizes cycle through the rows
     sizes = list(SMALL_SIZES)
     rng.shuffle(sizes)
@@ -118,9 +125,10 @@ def gen_cases(tier, seed):
         (16 * MB + 1, "text", {"comp": "st", "legacy": True}),                        # 3 legacy blocks
         (8 * MB, "text", {"comp": "mt", "mode": "-BD", "legacy": False, "bs": "-B5", "bx": True}),
     ]
-    nbig = {"quick": 8, "search": 12, "thorough": 50}[tier]
+    nbig = {"quick": 10, "search": 14, "thorough": 120}[tier]
     for i in range(nbig):
         row = {k: rng.choice(v) for k, v in DIMS.items()}
+        row["legacy"] = rng.random() < 0.15
         row["level"] = rng.choice([None, "-1", "-3", "--fast=3"] + (["-9", "-12"] if tier == "thorough" else []))
         if i < len(fixed):
             n, kind, force = fixed[i]
@@ -131,18 +139,19 @@ def gen_cases(tier, seed):
                 row["mode"] = "-BD"
         cases.append({"kind": "e2e", "content": kind, "size": n, "cseed": rng.randrange(1 << 30), "opts": row, "big": True})
     # -m : several files through one set of compression resources
-    for i in range({"quick": 3, "search": 6, "thorough": 20}[tier]):
+    for i in range({"quick": 3, "search": 6, "thorough": 40}[tier]):
         row = {k: rng.choice(v) for k, v in DIMS.items()}
         row["io"] = "file"
+        row["legacy"] = rng.random() < 0.2
         row["level"] = rng.choice([None, "-1", "-3", "-9", "--fast=3"])
         szs = [rng.choice(SMALL_SIZES) for _ in range(rng.choice([2, 3, 4]))]
         if i % 3 == 0:
             szs.insert(rng.randrange(len(szs)), rng.choice([4 * MB, 4 * MB + 1, 5 * MB]))
         cases.append({"kind": "multi", "sizes": szs, "content": rng.choice(KINDS), "cseed": rng.randrange(1 << 30), "opts": row})
-    ns = {"quick": 12, "search": 30, "thorough": 150}[tier]
+    ns = {"quick": 12, "search": 30, "thorough": 400}[tier]
     for i in range(ns):
         cases.append({"kind": "sparse", "sseed": rng.randrange(1 << 40), "count": 12})
-    for i in range({"quick": 2, "search": 4, "thorough": 12}[tier]):
+    for i in range({"quick": 2, "search": 4, "thorough": 30}[tier]):
         cases.append({"kind": "sparse", "sseed": rng.randrange(1 << 40), "count": 3, "big": True})
     cases.append({"kind": "setbs", "sseed": rng.randrange(1 << 40), "count": {"quick": 200, "search": 500, "thorough": 3000}[tier]})
     return cases
